@@ -304,16 +304,24 @@ theorem chars_List : ∀ x ∈ b!"List", identChar x = true := by decide
 theorem kLimit_dollar (v : Bytes) : (Scope.kLimit ++ v).contains 36 = true := by simp [Scope.kLimit]
 theorem kIndex_dollar (v : Bytes) : (Scope.kIndex ++ v).contains 36 = true := by simp [Scope.kIndex]
 
+theorem chars_Step : ∀ x ∈ b!"Step", identChar x = true := by decide
+theorem kStep_dollar (v : Bytes) : (Scope.kStep ++ v).contains 36 = true := by simp [Scope.kStep]
+theorem kVar_dollar (v : Bytes) : (Scope.kVar ++ v).contains 36 = true := by simp [Scope.kVar]
+
 theorem pushForRange_ok {sc : Scope} {v : Bytes} (h : ScopeOk sc) (hv : IsIdent v) :
-    IsIdent (sc.pushForRange v).1.1 ∧ IsIdent (sc.pushForRange v).1.2 ∧ ScopeOk (sc.pushForRange v).2 := by
+    IsIdent (sc.pushForRange v).1.1 ∧ IsIdent (sc.pushForRange v).1.2.1 ∧ IsIdent (sc.pushForRange v).1.2.2.1 ∧
+      IsIdent (sc.pushForRange v).1.2.2.2 ∧ ScopeOk (sc.pushForRange v).2 := by
   have h1 : IsIdent (Scope.jsname v [] (sc.n + 1)) := jsname_ident hv (by simp) _
   have h2 : IsIdent (Scope.jsname v b!"Limit" (sc.n + 1)) := jsname_ident hv chars_Limit _
-  refine ⟨h1, h2, ?_⟩
+  have h3 : IsIdent (Scope.jsname v b!"Step" (sc.n + 1)) := jsname_ident hv chars_Step _
+  have h4 : IsIdent (Scope.jsname v b!"Index" (sc.n + 1)) := jsname_ident hv chars_Index _
+  refine ⟨h1, h2, h3, h4, ?_⟩
   intro f hf
   simp only [Scope.pushForRange, List.mem_cons] at hf
   rcases hf with rfl | hf
-  · exact frameSet_ok _ _ _ (frameSet_ok _ _ _ (frameSet_ok _ _ _ frameOk_nil h1 (nameFor_jsname v [] _)) h2
-      (nameFor_dollar (kLimit_dollar v))) h1 (nameFor_dollar (kIndex_dollar v))
+  · exact frameSet_ok _ _ _ (frameSet_ok _ _ _ (frameSet_ok _ _ _ (frameSet_ok _ _ _ (frameSet_ok _ _ _ frameOk_nil h1
+      (nameFor_jsname v [] _)) h2 (nameFor_dollar (kLimit_dollar v))) h3 (nameFor_dollar (kStep_dollar v))) h4
+      (nameFor_dollar (kIndex_dollar v))) h1 (nameFor_dollar (kVar_dollar v))
   · exact h f hf
 
 theorem pushForEach_ok {sc : Scope} {v : Bytes} (h : ScopeOk sc) (hv : IsIdent v) :
